@@ -156,7 +156,7 @@ Lemma run_one r c f rest i c2 :
   Steps r (upd_cur r c2) /\ Good (upd_cur r c2) c2.
 Proof.
   intros G EF N EX SU2. pose proof G as (C & X & St & E & M & D & SU). split; [|apply (good_upd r c _ G SU2)].
-  eapply StepsExec; [|apply StepsRefl]. rewrite <- (set_msgs_upd_cur r c2 M).
+  apply steps_exec_upd. rewrite <- (set_msgs_upd_cur r c2 M).
   eapply step_instr; eauto. unfold upd_cur. destruct (r_active r); exact E.
 Qed.
 
